@@ -54,7 +54,14 @@ class Stores(list):
         from basyx.aas import model
         key = tuple(order)
         if key not in self.muxes:
-            self.muxes[key] = model.ObjectProviderMultiplexer([self[j] for j in order])
+            if len(self.muxes) % 2 == 0:
+                self.muxes[key] = model.ObjectProviderMultiplexer([self[j] for j in order])
+            else:
+                # constructed without an argument and filled afterwards through its public list
+                m = model.ObjectProviderMultiplexer()
+                for j in order:
+                    m.providers.append(self[j])
+                self.muxes[key] = m
         return self.muxes[key]
 
 
@@ -128,7 +135,8 @@ VIEW_IDS = IDS + ["id:zz"]
 def observe(nstores) -> List[List[Any]]:
     obs = [["view", s] for s in range(nstores)]
     for i in IDS:
-        obs += [["mux", [0, 1], i], ["mux", [1, 0], i]]
+        # two arrangements and a bystander multiplexer that was given no provider at all
+        obs += [["mux", [0, 1], i], ["mux", [1, 0], i], ["mux", [], i]]
     return obs
 
 
@@ -182,15 +190,16 @@ QUOTE_SAMPLES = ["", "a b", "ä/ö?#", "a:b[c]@d!$'()*+,;", "\x00\x01\x1e\x1f\x7
 
 def gen_cases(rng: random.Random, n: int):
     cases = []
-    props = [None, "", "a", "a b", "x:y", "a_0001", "ä", "\x01", "0001"]
+    props = [None, "", "a", "a b", "x:y", "a_0001", "ä", "\x01", "0001", "a\u0308", "\u00e4 b", "A\u030a(1)"]     # composed and decomposed spellings
     for _ in range(n):
-        ns = rng.choice(["http://x/", "urn:x#", "a:="])
+        ns = rng.choice(["http://x/", "urn:x#", "a:=", "http://u\u0308/", "http://\u00fc/"])
         calls = []
         known = []
         for _ in range(rng.randint(1, 8)):
             p = rng.choice(props)
             # the provider's contents: earlier results (sometimes), colliding look-alikes
-            extra = rng.sample([ns + "a", ns + "a_0001", ns + "a_0002", ns + "0000", ns + "0001", ns + "a%20b", ns + "a_0003"], rng.randint(0, 5))
+            extra = rng.sample([ns + "a", ns + "a_0001", ns + "a_0002", ns + "0000", ns + "0001", ns + "a%20b", ns + "a_0003",
+                                ns + "\u00e4", ns + "a\u0308", ns + "\u00e4%20b", ns + "\u00c5%281%29"], rng.randint(0, 6))
             calls.append((p, list(dict.fromkeys(known + extra))))
             calls[-1] = (p, calls[-1][1], rng.random() < 0.6)
         cases.append((ns, calls))
@@ -342,7 +351,7 @@ def check_sequence(seq) -> Optional[C.Failing]:
                         return C.Failing("store:view:membership", f"store {s} membership of object {x}", prefix)
             except Exception as e:
                 return C.Failing("store:view:raises", repr(e), prefix)
-        for order in ([0, 1], [1, 0]):
+        for order in ([0, 1], [1, 0], []):
             mux = stores.mux(order)          # a long-lived multiplexer: the answer may not depend on earlier lookups
             for i in IDS:
                 want = next((ref[j][i] for j in order if i in ref[j]), None)
